@@ -74,7 +74,7 @@ def run_mpi_cases(agg, binary, seed, P, a, b, opts, timeout, source, entries, ma
         shutil.rmtree(d, ignore_errors=True)
         last_b = last_e = None
         for line in ranks[0] if ranks else []:
-            r = lib._parse_line(agg, line, source, max_samples)
+            r = lib._parse_line(agg, line, source, max_samples, dict(kind='mpi', ranks=P, seed=seed, opts=opts or {}))
             if r:
                 if r[0] == 'B':
                     last_b = r[1]
@@ -114,9 +114,9 @@ def run_mpi_cases(agg, binary, seed, P, a, b, opts, timeout, source, entries, ma
                 continue
             with agg.lock:
                 agg.violations.append(dict(key='%s:hang' % (entry or 'mpi_job'), detail='job with %d ranks did not finish within the %ds watchdog twice; ranks still inside a call: %s' % (P, timeout, json.dumps({str(k): list(v) for k, v in open_calls.items()})),
-                                           case=dict(ranks=P, case=failing, entry=entry, opts=opts), spec_text='seed=%s case=%s' % (seed, failing), observed=dict(open_calls={str(k): list(v) for k, v in open_calls.items()}, stacks=stacks), idx=failing, source=source, tags=['P=%d' % P]))
+                                           case=dict(ranks=P, case=failing, entry=entry, opts=opts), spec_text='seed=%s case=%s' % (seed, failing), observed=dict(open_calls={str(k): list(v) for k, v in open_calls.items()}, stacks=stacks), idx=failing, source=source, tags=['P=%d' % P], rerun=dict(kind='mpi', ranks=P, seed=seed, opts=opts or {}, idx=failing)))
         else:
             with agg.lock:
                 agg.violations.append(dict(key='%s:crash' % (entry or 'mpi_job'), detail='job with %d ranks died with status %s while ranks were inside %s' % (P, rc, json.dumps({str(k): list(v) for k, v in open_calls.items()})),
-                                           case=dict(ranks=P, case=failing, entry=entry, opts=opts), spec_text='seed=%s case=%s' % (seed, failing), observed=dict(output_tail=(out or '')[-1500:]), idx=failing, source=source, tags=['P=%d' % P]))
+                                           case=dict(ranks=P, case=failing, entry=entry, opts=opts), spec_text='seed=%s case=%s' % (seed, failing), observed=dict(output_tail=(out or '')[-1500:]), idx=failing, source=source, tags=['P=%d' % P], rerun=dict(kind='mpi', ranks=P, seed=seed, opts=opts or {}, idx=failing)))
         cur = failing + 1
